@@ -282,3 +282,65 @@ def run_slicetype(ctx):
         else:
             res.bad("slicetype:at-uses-index_result", "BinOperator::At is no longer typed with Type::index_result", bo.where())
     return res
+
+
+def run_celltype(ctx):
+    """C13 / C01: the content type of a cell is fixed when the `mut` expression is checked."""
+    res = RuleResult("R-CELLTYPE", "a cell is tagged with the content type fixed at creation of the `mut` instruction (declared, or inferred "
+                                   "once from the initialiser's static type): executing, folding and typing the instruction copy that "
+                                   "field and never re-derive the type from the (possibly narrowed) initialiser")
+    lib = ctx.facts.lib
+    from ..owners import for_crate
+    own = for_crate(lib)
+    M = "instruction::r#mut::Mut"
+    rows = (("<%s as instruction::Exec>::exec" % M, "the run-time cell"), ("<%s as instruction::Recreate>::recreate" % M, "the folded instruction"),
+            ("<%s as variable::r#type::ReturnType>::return_type" % M, "the static type of the `mut` expression"))
+    for fid, what in rows:
+        b = lib.body(fid)
+        if not res.anchor(b is not None, fid):
+            continue
+        members = own.members(fid)
+        asks = [c for hb in members for c in hb.calls if c.path == "variable::r#type::ReturnType::return_type" and hb.id != "<%s as variable::r#type::ReturnType>::return_type" % M]
+        reads = [pl for hb in members for _, pl, _ in places_read(hb) if any(e["k"] == "field" and e.get("name") == "var_type" and e.get("owner", "").startswith(M) for e in pl["p"])]
+        key = "celltype:%s" % fid
+        if asks:
+            res.bad(key, "%s derives the cell's content type from the initialiser's type at this point (%s): after constant propagation / "
+                         "capture the initialiser is narrower than when the program was checked, so the cell is tagged narrower than its "
+                         "static type `mut T` (cells are invariant)" % (fid, what), members[0].where(asks[0].line))
+        elif not reads:
+            res.bad(key, "%s no longer copies the content type fixed at creation (field var_type)" % fid, b.where())
+        else:
+            res.ok(key, b.where(), "%s carries the var_type field fixed at creation" % what)
+    # creation: the only place that may infer
+    cb = lib.body("%s::create_instruction" % M)
+    if res.anchor(cb is not None, M + "::create_instruction"):
+        if any(c.path == "variable::r#type::ReturnType::return_type" for c in cb.calls):
+            res.ok("celltype:create", cb.where(), "the content type is declared or inferred here, once")
+        else:
+            res.bad("celltype:create", "Mut::create_instruction no longer looks at the initialiser's static type", cb.where())
+    return res
+
+
+def run_escapes(ctx):
+    """C20: the string literal grammar reads every escape the renderer writes."""
+    res = RuleResult("R-ESCAPES", "writer's table ⊆ reader's table: each escape sequence Rust's {:?} rendering of a string can emit is "
+                                  "accepted by the grammar rule `string` (evaluated on the grammar data, PEG semantics)")
+    from ..grammar import Grammar, peg_match
+    g = Grammar(ctx.facts.grammar)
+    if not res.anchor("string" in g.rules and g.ty("string") in ("compound", "atomic"), "atomic grammar rule `string`"):
+        return res
+    # what char::escape_debug / str's Debug can write inside the quotes (std documentation; trusted constant table)
+    writer = {"\\0": "NUL", "\\t": "tab", "\\r": "CR", "\\n": "LF", "\\'": "single quote (char only)", '\\"': "double quote",
+              "\\\\": "backslash", "\\u{7f}": "other control / non-printable (\\u{..})", "\\u{301}": "grapheme extender"}
+    for esc, what in writer.items():
+        lit = '"a' + esc + 'b"'
+        key = "escape:%s" % esc
+        if peg_match(g, "string", lit):
+            res.ok(key, "parser/src/simplesl.pest", "%s: %s is a string literal" % (what, lit))
+        else:
+            res.bad(key, "the REPL renders %s as %s, but the grammar rule `string` does not accept %s: a printed string containing it "
+                         "cannot be parsed back" % (what, esc, lit), "parser/src/simplesl.pest")
+    # negative controls: the evaluator is not vacuous
+    res.control(not peg_match(g, "string", '"a"b"') and not peg_match(g, "string", '"a\\"'), "peg evaluator rejects an unescaped quote / dangling backslash")
+    res.control(peg_match(g, "string", '"plain"'), "peg evaluator accepts a plain string")
+    return res
